@@ -146,6 +146,8 @@ class FolderX(Folder):
         return super()._f_Compare(n)
 
     def _f_Attribute(self, n):
+        if isinstance(n.value, ast.Name) and n.value.id in self.local and self.local[n.value.id] is None:
+            raise AttributeError(f"'NoneType' object has no attribute '{n.attr}'")  # what the analysed code would raise
         if n.attr == "__dict__":
             o = self.fold(n.value)
             if _is_stub(o):
